@@ -1422,6 +1422,11 @@ func loadViewFromJsonLinesFile(ctx context.Context, flags *option.Flags, fp *fil
 				break
 			}
 
+			if row == nil {
+				// a blank line, e.g. the line break that follows the last row
+				continue
+			}
+
 			rowObj, ok := row.(txjson.Object)
 			if !ok {
 				err = NewJsonLinesStructureError(expr)
